@@ -104,7 +104,7 @@ Fixpoint handle_read (fuel : nat) (s : wa) : wa :=          (* asyncNextFrame: d
   end
 with run_cont (fuel : nat) (s : wa) (k : contk) : wa :=
   match fuel with
-  | O => set_fuel_out s
+  | O => set_fuel_out (add_fdone s k)
   | S f =>
       let s := add_fdone s k in
       match k with
